@@ -105,7 +105,8 @@ def manual_vectors(tier):
     if tier == 'quick':
         # every history of <= 3 operations (cancel as the lookup), every history of <= 2 operations with each lookup kind
         for n in range(0, 4):
-            hs += enum_histories(shapes_of_len(n, first_s=False) if n <= 2 else shapes_of_len(n), lookup=(C,))
+            hn = enum_histories(shapes_of_len(n, first_s=False) if n <= 2 else shapes_of_len(n), lookup=(C,))
+            hs += hn if n <= 2 else hn[::2]        # quick: every second 3-operation history (h_cover adds a 4th operation to every state they reach)
         for n in range(1, 3):
             hs += enum_histories([s for s in shapes_of_len(n, first_s=False) if 'L' in s], lookup=(CE, R))
         # two sleeps, then three lookups/expiries: cancel of a non-top entry followed by its surfacing (repeated cancel, cancel after expiry)
@@ -405,7 +406,7 @@ def plan(tier):
                       space='manual mode: histories over {sleep_until/schedule(tp,id), cancel(id), cancel(id,e), remove(id), get_expired(now)} then destruction of the scheduler; '
                             'per history: canonical identifier assignment over <= 3 ids, every weak order of the time points (ties included), every position of `now` '
                             'relative to the time points scheduled so far (past, equal, between, later); %s' %
-                            ('all histories of <= 3 operations (3-operation ones start with a sleep) + slices of 5-operation histories: 2 sleeps with different ids then 3 cancels / cancel, full expiry, cancel; 3 strictly ordered sleeps over 2 ids then 2 cancels of one id'
+                            ('all histories of <= 2 operations, every second one of 3 operations (they start with a sleep) + slices of 5-operation histories: 2 sleeps with different ids then 3 cancels / cancel, full expiry, cancel; 3 strictly ordered sleeps over 2 ids then 2 cancels of one id'
                              if tier == 'quick' else
                              'all histories of <= 4 operations + 5-operation families SSLLL SSLGL SSLLG SSGLL SSLGG SSSLL SSSLG SSSGL SSSGG over 2 ids'),
                       data='none symbolic in this unit: the scheduler only compares time points and identifiers, so time values are enumerated up to order isomorphism; '
@@ -416,9 +417,9 @@ def plan(tier):
     # one step from every reachable abstract heap state (<= 3 entries, alive or emptied)
     if tier == 'quick':
         cv, nst, ntot = cover_vectors(COVER_QUICK_PREFIX, 'G', (C,), coarse_now=True)
-        cv += cover_vectors(COVER_QUICK_PREFIX - 1, 'L', (C,), coarse_now=True)[0]
+        cv += cover_vectors(COVER_QUICK_PREFIX - 2, 'L', (C,), coarse_now=True)[0]
         what = ('the %d of them whose shortest history has <= %d operations, followed by every single get_expired (below the earliest and at each time point; positions strictly between two time points and above the '
-                'latest one are in the thorough tier) and, for the states reached within %d operations, by every single cancel' % (nst, COVER_QUICK_PREFIX, COVER_QUICK_PREFIX - 1))
+                'latest one are in the thorough tier) and, for the states reached within %d operations, by every single cancel' % (nst, COVER_QUICK_PREFIX, COVER_QUICK_PREFIX - 2))
     else:
         cv, nst, ntot = cover_vectors(11, 'SLG', (C, CE, R))
         what = 'all of them, followed by every single sleep / cancel / cancel(e) / remove / get_expired'
